@@ -160,12 +160,18 @@ def delete_tables_with_prefix(sqlite_db_path: str | Path, prefix: str) -> None:
     :param prefix: Table name prefix to match
     """
     with create_sqlite_connection(sqlite_db_path) as conn:
-        cursor = conn.execute(
-            "SELECT name FROM sqlite_master WHERE type='table' AND name LIKE ?",
-            (f"{prefix}%",),
-        )
+        # Not "name LIKE prefix%": in LIKE "_" matches any character and ASCII case is
+        # ignored, and another application's id may itself look like this prefix.
+        # A table belongs to the prefix when its name starts with it (exactly) and
+        # the rest holds no "__": that separator only follows an application's own
+        # "<sanitized id>_<hash>" part, so it would reveal a foreign application.
+        cursor = conn.execute("SELECT name FROM sqlite_master WHERE type='table'")
         try:
-            tables = [row[0] for row in cursor.fetchall()]
+            tables = [
+                row[0]
+                for row in cursor.fetchall()
+                if row[0].startswith(prefix) and "__" not in row[0][len(prefix) :]
+            ]
         finally:
             try:
                 cursor.close()
